@@ -188,8 +188,12 @@ def _flatten_stmts(func, stmts, depth, stack, keep=()):
         if isinstance(st, ast.Expr) and isinstance(st.value, ast.Call):
             call = st.value
         elif isinstance(st, ast.Assign) and len(st.targets) == 1 and \
-                isinstance(st.value, ast.Call) and \
-                isinstance(st.targets[0], ast.Name):
+                isinstance(st.value, ast.Call) and (
+                    isinstance(st.targets[0], ast.Name) or
+                    (isinstance(st.targets[0], ast.Tuple) and
+                     all(isinstance(x, ast.Name)
+                         for x in st.targets[0].elts))):
+            # (a tuple of names: the helper returns a tuple)
             call, target = st.value, st.targets[0]
         if isinstance(st, ast.Return) and isinstance(st.value, ast.Call) \
                 and depth < 3:
